@@ -47,17 +47,29 @@ int main(int argc, char** argv) {
     }
     std::function<double(double, const double*, int)> fn = fint;
     auto res = g.integrate(fn, (const double*)&prm, tol, start, end);
-    // counterfactual for the attribution of recorded findings: the same call with the first one / two acceptances deferred
-    double d1 = res.first, d2 = res.first; int c1 = res.second ? 1 : 0, c2 = c1;
+    // counterfactual for the attribution of recorded findings: the same call with the first one / two acceptances deferred; when the grid
+    // is exhausted a deferral has nowhere to go, so the same is done on the nested grid of twice the size (2 maxN + 1 points: its first
+    // levels are the very same estimates)
+    double d1 = res.first, d2 = res.first, d3 = res.first, d4 = res.first; int c1 = res.second ? 1 : 0, c2 = c1, c3 = c1, c4 = c1;
 #ifdef LIBECPINT_VERIF
     verif::ctl().quad_defer = 1; { auto r1 = g.integrate(fn, (const double*)&prm, tol, start, end); d1 = r1.first; c1 = r1.second ? 1 : 0; }
     verif::ctl().quad_defer = 2; { auto r2 = g.integrate(fn, (const double*)&prm, tol, start, end); d2 = r2.first; c2 = r2.second ? 1 : 0; }
+    if (istart < 0) {
+      GCQuadrature g2; g2.initGrid(2 * g.maxN + 1, type == 1 ? ONEPOINT : TWOPOINT);
+      if (kind == 1) g2.transformRMinMax(zt, pt); else if (kind == 2) g2.transformZeroInf();
+      double mx = 0; for (int i = 0; i < g2.maxN; i++) mx = std::max(mx, g2.w[i] * fint(g2.x[i], (const double*)&prm, i));
+      int s2 = 0, e2 = g2.maxN - 1;
+      while (s2 < e2 && g2.w[s2] * fint(g2.x[s2], (const double*)&prm, s2) < 1e-30 * mx) s2++;
+      while (e2 > s2 && g2.w[e2] * fint(g2.x[e2], (const double*)&prm, e2) < 1e-30 * mx) e2--;
+      verif::ctl().quad_defer = 1; { auto r3 = g2.integrate(fn, (const double*)&prm, tol, s2, e2); d3 = r3.first; c3 = r3.second ? 1 : 0; }
+      verif::ctl().quad_defer = 2; { auto r4 = g2.integrate(fn, (const double*)&prm, tol, s2, e2); d4 = r4.first; c4 = r4.second ? 1 : 0; }
+    }
     verif::ctl().quad_defer = 0;
 #endif
     std::fprintf(f, "case %s\n", id.c_str());
     std::fprintf(f, "int type %d\nint points %d\nint maxN %d\nint M %d\nint kind %d\nint k %d\nint start %d\nint end %d\nint converged %d\n", type, points, g.maxN, g.M, kind, k, start, end, res.second ? 1 : 0);
     std::fprintf(f, "mat params 1 6 %a %a %a %a %a %a\n", tol, zt, pt, z, c, res.first);
-    std::fprintf(f, "mat defer 1 4 %a %a %a %a\n", d1, (double)c1, d2, (double)c2);
+    std::fprintf(f, "mat defer 1 8 %a %a %a %a %a %a %a %a\n", d1, (double)c1, d2, (double)c2, d3, (double)c3, d4, (double)c4);
     auto putv = [&](const char* nm, const std::vector<double>& v) { std::fprintf(f, "mat %s 1 %d", nm, (int)v.size()); for (double d : v) std::fprintf(f, " %a", d); std::fprintf(f, "\n"); };
     putv("x0", x0); putv("w0", w0); putv("x", g.x); putv("w", g.w);
     std::fprintf(f, "end\n");
